@@ -41,6 +41,8 @@ type Case struct {
 	Continue bool   `json:"continue_on_errors,omitempty"`
 	// Programmatic: the parsed schema is put in the form a schema assembled in Go code has (see unsetAllows)
 	Programmatic bool `json:"programmatic,omitempty"`
+	// NumberInstance: the numbers of the instance are json.Number values
+	NumberInstance bool `json:"number_instance,omitempty"`
 }
 
 func genCase(t *rapid.T) Case {
@@ -65,6 +67,7 @@ func genCase(t *rapid.T) Case {
 		c.Value = gen.Text(gen.InstanceFor(t, doc, 14))
 		c.Entry = rapid.SampledFrom([]string{"against", "validator", "recycling"}).Draw(t, "entry")
 		c.Programmatic = gen.UniformIndex(t, 4, "programmatic") == 0
+		c.NumberInstance = gen.UniformIndex(t, 3, "numberinstance") == 0
 	case "param", "header":
 		d := gen.SimpleDef(t, 3)
 		if c.Kind == "param" {
@@ -170,6 +173,12 @@ func checkSchema(c Case) (out ev.Outcome) {
 	before, _ := json.Marshal(used)
 	data, _ := obs.DecodeStd(c.Value)
 	dataPristine, _ := obs.DecodeStd(c.Value)
+	if c.NumberInstance {
+		// the instance as a decoder with UseNumber hands it over: numbers are json.Number
+		data, _ = obs.DecodeNumber(c.Value)
+		dataPristine, _ = obs.DecodeNumber(c.Value)
+		out.Classes = append(out.Classes, "instance-with-json.Number")
+	}
 	msg, st := obs.Guard(func() {
 		if c.Entry == "against" {
 			_ = validate.AgainstSchema(used, data, registry)
